@@ -356,7 +356,7 @@ def onReady (s : GState) : GState × String :=
     i.name == t.tok.name && t.sym < tbl.tokenCount
   ({ s with tbl := tbl, closed := closed, g := g, oracle := oracle, opOK := opOK, dynO := dynO, exempt := exempt, badStates := badStates },
    s!"G {s.gid} kind={s.kind} closed={closed} rootsafe={rootSafe tbl} tablesafe={safe} cover={cover} complete={complete} prec={hasPrecs} multi={((List.range tbl.stateCount).map fun q => ((tbl.acts.getD q []).filter fun e => e.2.length > 1).length).foldl (· + ·) 0} exempt={exempt} items={nitems} rel={rel} relscope={relScope g tbl} prods={nprods} badprod={badProd.replace " " "_"} states={tbl.stateCount} symbols={tbl.symbolCount} rules={g.rules.length} " ++
-   s!"repconflict={suspiciousRepetitionCells tbl} simple={simple} oracle={oracle.isSome} dyn={dynO.isSome} L={s.exh} lang={langSize} fix={fix} opgrammar={opOK} terms={termsOK} nterm={s.terms.size}")
+   s!"repconflict={suspiciousRepetitionCells tbl} simple={simple} oracle={oracle.isSome} dyn={dynO.isSome} L={s.exh} lang={langSize} fix={fix} opgrammar={opOK} resolvable={match s.optable with | some t => toString t.resolvable | none => "na"} terms={termsOK} nterm={s.terms.size}")
 
 def drvName : Outcome → String
   | .accepted _ => "acc"
@@ -513,6 +513,10 @@ def step (s : GState) (line : String) : IO GState := do
   | ["grammar", gid, kind] => return { gid := gid, kind := kind }
   | "ruleorder" :: names => return { s with order := names.map unhexString }
   | ["optable", enc] => return { s with optable := some (parseOpTable enc) }
+  | ["rejected", gid, enc] =>
+    -- an operator table whose grammar the generator refused
+    IO.println s!"R {gid} resolvable={(parseOpTable enc).resolvable}"
+    return s
   | ["table"] => return { s with mode := 1 }
   | ["term", _idx, named, sym, nm, tx, ex] =>
     return { s with terms := s.terms.push { tok := ⟨unhexString nm, named == "1"⟩, sym := natOf' sym, extra := ex == "1", text := unhexString tx } }
